@@ -279,6 +279,9 @@ static void srgb_lowp(pbt::Ctx& c) {
 		LD want = rc::l2s((LD)xs[i], 1.0L / 2.4L), err = fabsl((LD)y[i] - want);
 		c.metric("lowp |f - IEC| / 0.1", (double)(err / 0.1L));
 		if (!(err <= 0.1L)) c.failk(std::string("LinearToSRGB/lowp_vec3/value/") + (lin ? "linear" : "curve"), "f(%.9g) = %.9g, IEC %.9Lg: off by more than 0.1", (double)xs[i], (double)y[i], want);
+		// above the toe the polynomial follows the curve to 9.7e-4 (measured over 10^6 points); 4e-3 is a calibrated regression bound, since
+		// GLM states no accuracy for lowp beyond the 0.1 of its own test
+		if (!lin) { c.metric("lowp curve |f - IEC| / 4e-3", (double)(err / 0.004L)); if (!(err <= 0.004L)) c.fail("LinearToSRGB/lowp_vec3/value/curve-accuracy", "f(%.9g) = %.9g, IEC %.9Lg: off by %.3Lg > 4e-3 on the curve segment", (double)xs[i], (double)y[i], want, err); }
 		if (!(y[i] >= 0)) { c.cls("negative-result"); c.failk(std::string("LinearToSRGB/lowp_vec3/range/negative/") + (lin ? "linear" : "curve"), "f(%.9g) = %.9g < 0", (double)xs[i], (double)y[i]); }
 		if (!(y[i] <= 1 + 8 * 1.1920929e-7f)) c.failk(std::string("LinearToSRGB/lowp_vec3/range/above1/") + (lin ? "linear" : "curve"), "f(%.9g) = %.9g > 1", (double)xs[i], (double)y[i]);
 	}
